@@ -190,10 +190,13 @@ class DataType(metaclass=_DataTypeMeta):
         """
         Reads `size` bytes from `stream`.
         Raises `BufferEmptyError` if stream returns no data.
+        Raises `DataError` if the stream ends before `size` bytes were read.
         """
         data = stream.read(size)
         if not data:
             raise BufferEmptyError()
+        if size > 0 and len(data) < size:
+            raise DataError(f"Not enough data, expected {size} bytes and got {len(data)}")
         return data
 
     def __repr__(self) -> str:
